@@ -332,4 +332,48 @@ theorem primary_switch_in_flight_witness :
     (switchRun.stores 1).val kx = some ⟨0, [100], 0⟩ :=
   ⟨by decide, by decide, by decide⟩
 
+/-! #### observation (outside C07's quantifier): a Delete between two attempts of one etcd CAS call
+
+`Ev` has no Delete, so in every run of the model the kept token variable is dead
+(`absent_read_holds_zero_token`). The witness below shows, at store level with the model's own
+`readIdx` / `condWrite` (the functions tied by the correspondence streams), what the kept variable does
+once a Delete is allowed. Reproduced once on the real `etcd.Client.CAS` over its mock with a throw-away
+test (the call returned nil, its function was applied to nil, the other call's value was gone); no
+correspondence stream drives Delete during a run, so no judge rule concerns it. -/
+
+def vA : Val := ⟨0, [1], 0⟩
+def vC : Val := ⟨0, [3], 0⟩
+def vA2 : Val := ⟨0, [2], 0⟩
+
+/-- **etcd_kept_revision_after_delete_witness**: `etcd.Client.CAS` assigns `revision` only when the key
+exists. A call whose first attempt read the key at version 1 (and lost: the key was deleted before its
+write) finds the key absent at its second attempt and keeps `revision = 1` while `f` is applied to nil;
+another call re-creates the key in between (version 1 again: etcd versions restart after a delete), so
+the transaction `Version(key) = 1` succeeds: the call returns nil having applied `f` to nil, and the
+other call's successful write `vC` is overwritten unseen. -/
+theorem etcd_kept_revision_after_delete_witness :
+    let s1 : Store Val := (Store.empty .etcd).set kx ⟨vA, 1⟩          -- key present at version 1
+    let idx1 := readIdx s1 kx 0                                         -- attempt 1 reads: revision = 1
+    let s2 : Store Val := Store.empty .etcd                             -- Delete(key)
+    let idx2 := readIdx s2 kx idx1                                      -- attempt 2 reads the absent key
+    let s3 := (condWrite Val.merge s2 kx 0 vC).1                        -- another call creates the key
+    let w := condWrite Val.merge s3 kx idx2 vA2                         -- attempt 2's conditional write
+    idx1 = 1 ∧ (condWrite Val.merge s2 kx idx1 vA2).2 = .conflict ∧     -- attempt 1's write conflicts
+    idx2 = 1 ∧ s2.val kx = none ∧                                       -- revision kept, input nil
+    (condWrite Val.merge s2 kx 0 vC).2 = .wrote ∧ s3.val kx = some vC ∧ s3.ver kx = 1 ∧
+    w.2 = .wrote ∧ w.1.val kx = some vA2 := by
+  decide
+
+/-- the same history on the consul mock (ModifyIndex comes from a store-wide counter that a delete
+does not reset) and on memberlist (the version is read afresh at every attempt): the second
+attempt's write is rejected. -/
+theorem consul_ml_kept_token_after_delete_safe :
+    (let s2 : Store Val := { (Store.empty .consul : Store Val) with cur := 2 }
+     let s3 := (condWrite Val.merge s2 kx 0 vC).1
+     (condWrite Val.merge s3 kx (readIdx s2 kx 2) vA2).2 = .conflict) ∧
+    (let s2 : Store Val := Store.empty .ml
+     let s3 := (condWrite Val.merge s2 kx 0 vC).1
+     readIdx s2 kx 1 = 0 ∧ (condWrite Val.merge s3 kx (readIdx s2 kx 1) vA2).2 = .conflict) := by
+  decide
+
 end PC07
